@@ -12,7 +12,7 @@ from ..decoders import lin_of, tree_of
 from ..model import ClassInfo, FuncInfo, NotConst, norm
 from ..paths import enumerate_paths, no_raise
 from ..replay import Replay, make_inliner
-from ..symx import Sym, Lin
+from ..symx import Sym, Lin, entails_ge
 from .c12 import _only_raises
 from .c14 import tables_ctx, decoders_ctx
 from .c18 import Wire
@@ -148,7 +148,8 @@ def _byte_half(ctx, rep, dec, ci, row, key, where):
     idx = None
     src_ok = width_ok = ret_ok = False
     word = None
-    for st in enc.node.body:
+    from ..astutil import inlined_body
+    for st in inlined_body(ctx.res, enc):
         if isinstance(st, ast.Assign) and isinstance(st.value, ast.Call) and norm(st.value.func) == "bytearray" and st.value.args \
                 and norm(st.value.args[0]) == enc.params[2]:
             word = st.targets[0].id if isinstance(st.targets[0], ast.Name) else None
@@ -215,12 +216,46 @@ def _timestamp(ctx, rep, ci, key, where):
 
 
 def _group_codec(ctx, rep, ci, row, key, where):
-    enc = ctx.prog.find_method(ci, "encode_value")
+    """Every path of the eco / schedule encode_value that returns hands back the caller's bytes unchanged after
+    isinstance(value, bytes), len(value) == size and a truthy self.read_value(ProtocolResponse(value, None));
+    every other path raises ValueError."""
+    from ..symx import entails_eq
+    prog = ctx.prog
+    enc = prog.find_method(ci, "encode_value")
     size = row.size_ if row is not None else None
-    src = " ".join(norm(s) for s in enc.node.body)
-    ok_len = size is not None and ("len(value) == %d" % size) in src
-    ok_validate = "self.read_value(ProtocolResponse(value, None))" in src and "return value" in src
-    ok_reject = any(isinstance(s, ast.Raise) and "ValueError" in norm(s) for s in enc.node.body)
+    vname = enc.params[1]
+    ok_len = ok_validate = ok_reject = True
+    nret = 0
+    for p in enumerate_paths(prog, enc, no_raise):
+        if p.end == "raise":
+            if prog.exc_name(p.end_data) != "ValueError":
+                ok_reject = False
+            continue
+        if p.end != "return" or p.end_node.value is None:
+            ok_reject = False      # falls off the end: encodes None instead of refusing
+            continue
+        nret += 1
+        rp = Replay(prog, enc, p)
+        if norm(p.end_node.value) != vname:
+            ok_validate = False
+        if size is None or not entails_eq(rp.facts, Lin.of_term(("len", ("var", vname))) - Lin.of_const(size)):
+            ok_len = False
+        validated = isbytes = False
+        for ev in p.events:
+            if ev.kind != "test" or ev.data is not True or not isinstance(ev.node, ast.Call):
+                continue
+            c = call_chain(ev.node) or ()
+            if c == ("self", "read_value") and len(ev.node.args) == 1 and isinstance(ev.node.args[0], ast.Call) \
+                    and norm(ev.node.args[0].func) == "ProtocolResponse" and ev.node.args[0].args and norm(ev.node.args[0].args[0]) == vname:
+                validated = True
+            if c == ("isinstance",) and len(ev.node.args) == 2 and norm(ev.node.args[0]) == vname and norm(ev.node.args[1]) == "bytes":
+                isbytes = True
+        if not validated:
+            ok_validate = False
+        if not isbytes:
+            ok_len = False
+    if nret == 0:
+        ok_validate = False
     rep.check(ok_len and ok_validate and ok_reject, "C17.R1", key, where, "%s accepts exactly %s raw bytes that its own read_value decodes, else ValueError" % (ci.name, size),
               bad="%s.encode_value no longer validates %s raw bytes through its own read_value (length check %s, validation %s, ValueError %s)" % (ci.name, size, ok_len, ok_validate, ok_reject))
 
@@ -277,12 +312,22 @@ def r2(ctx: Ctx, rep: Report):
             for i, ev in enumerate(p.events):
                 if ev.kind != "call":
                     continue
-                k = wire.site_kind(fn, ev.node)
+                k = wire.site_kind(p.fn_at(i, fn), ev.node)
                 if k is None:
                     continue
                 (writes if k[0] != "read" else reads).append((i, ev.node, k))
             n += 1
-            small = next((ev.data for ev in p.events if ev.kind == "test" and norm(ev.node).startswith("len(") and "<= 2" in norm(ev.node)), None)
+            # is the encoded value known to be at most / more than 2 bytes long on this path (whichever way the test is written)
+            small = None
+            for f in r.facts:
+                if f.kind == "ge" and f.lin is not None:
+                    lens = [t for t in f.lin.terms if t[0] == "len"]
+                    if len(lens) == 1 and len(f.lin.terms) == 1:
+                        ln = Lin.of_term(lens[0])
+                        if entails_ge(r.facts, Lin.of_const(2) - ln):
+                            small = True
+                        elif entails_ge(r.facts, ln - Lin.of_const(3)):
+                            small = False
             size1 = next((ev.data for ev in p.events if ev.kind == "test" and norm(ev.node) == "%s.size_ == 1" % sp), None)
             why = None
             if len(writes) != 1:
@@ -290,7 +335,8 @@ def r2(ctx: Ctx, rep: Report):
             else:
                 i, call, kind = writes[0]
                 addr = call.args[0] if call.args else None
-                if addr is None or norm(addr) != "%s.offset" % sp:
+                own_addr = Sym.for_function(prog, fn).lin(ast.parse("%s.offset" % sp, mode="eval").body)
+                if addr is None or r.sym_at(i).lin(addr) != own_addr:
                     why = "write addressed to %s, not %s.offset" % (norm(addr) if addr is not None else "?", sp)
                 else:
                     name = (call_chain(call) or ("",))[-1]
@@ -322,8 +368,8 @@ def r2(ctx: Ctx, rep: Report):
                 # read-modify-write for one-byte settings
                 if why is None:
                     if size1 is True:
-                        ok_rmw = len(reads) == 1 and len(reads[0][1].args) >= 2 and norm(reads[0][1].args[0]) == "%s.offset" % sp and norm(reads[0][1].args[1]) == "1" \
-                            and reads[0][0] < writes[0][0]
+                        ok_rmw = len(reads) == 1 and len(reads[0][1].args) >= 2 and r.sym_at(reads[0][0]).lin(reads[0][1].args[0]) == own_addr \
+                            and r.sym_at(reads[0][0]).lin(reads[0][1].args[1]) == Lin.of_const(1) and reads[0][0] < writes[0][0]
                         enc_calls = [ev.node for ev in p.events if ev.kind == "call" and (call_chain(ev.node) or ("",))[-1] == "encode_value"]
                         ok_arg = enc_calls and len(enc_calls[0].args) == 2 and norm(enc_calls[0].args[1]).endswith(".response_data()[0:2]")
                         if not ok_rmw:
